@@ -42,9 +42,17 @@ def case_from_replay(mod, case):
 BAD_PREFIXES = ("badret.", "noerrno.", "tobuf-", "newbuf", "cbfail-", "sizemismatch.")
 
 
+MAX_ENUM_OCTETS = 6000
+
+
 def run_case(sess, mod, tname, t, x, feats, acc):
     v, (bk, target) = x
     refder = ref_ber.encode(mod, t, v)
+    if len(refder) > MAX_ENUM_OCTETS and not getattr(acc, "probe", False):
+        # the enumeration is (buffer sizes + callback indices) x five encoders x one full encoding each: for values of
+        # tens of kilobytes it runs into the driver's reply timeout, and a time limit is not an oracle
+        acc.excluded["value too large for the fault enumeration (> %d octets of DER)" % MAX_ENUM_OCTETS] += 1
+        return None
     cmdline = "contract %s %s" % (tname, drv.hexs(refder))
     if bk:
         cmdline += " %d %d" % (bk, target)
